@@ -71,6 +71,9 @@ def _xor_instance(p):
         prob = rng.random((X, Y)) + 0.02
         if dist == "biased":
             prob = prob**4
+        if dist == "rarepair":  # one question pair much rarer than a coarse validation tolerance, all others common
+            prob = rng.random((X, Y)) + 0.5
+            prob[X - 1, Y - 1] = 0.004 * prob.sum()
         if dist == "zerorow" and X > 1:
             prob[rng.integers(X), :] = 0.0
         if dist == "zerocol" and Y > 1:
@@ -787,6 +790,14 @@ def cases(tier, seed):
             base = dict(shape=[X, Y], dist="random", seed=seed + 7 * X + Y, tol=1e-6)
             for cl in ("xor.qv_ge", "xor.qv_le", "xor.cv_ge", "xor.cv_le"):
                 add(cl, dict(base), "xor/tol-given", nt)
+            # a coarse explicit tol only loosens the validation of prob_mat: the values are those of the distribution as given, also when
+            # some question pair is rarer than tol
+            for tolv, dist in ((1e-2, "rarepair"), (5e-2, "biased"), (1e-2, "biased")):
+                if X * Y == 1:
+                    continue
+                base = dict(shape=[X, Y], dist=dist, seed=seed + 17 * X + Y, tol=tolv)
+                for cl in ("xor.qv_ge", "xor.qv_le", "xor.cv_ge", "xor.cv_le", "xor.conv_pred"):
+                    add(cl, dict(base), "xor/coarse-tol-rare-question-pair", nt)
             # degenerate predicates
             for pk in ("zeros", "ones"):
                 base = dict(shape=[X, Y], dist="random", seed=seed + X + 2 * Y, pred=pk)
